@@ -533,6 +533,44 @@ def to_events(pts, S, C):
     return evs
 
 
+def applicability(pts, S):
+    """Mirror of the trace spec's applicability rules, used ONLY to count how often each clause was really evaluated
+    (vacuity control); the verdict is TLC's."""
+    def flag(fn):
+        return onp.array([fn(pts[i]) for i in S["pid"]], bool)
+    pd = flag(lambda o: o["d"][0] >= 1 if o["kind"] == "rot" else o["def"] == "pd")
+    psd = flag(lambda o: o["d"][0] >= 0 if o["kind"] == "rot" else o["def"] in ("pd", "psd", "zero"))
+    ns = flag(lambda o: all(x != 0 for x in o["d"]) if o["kind"] == "rot" else o["i3"] != 0)
+    g0 = flag(lambda o: o["g"] == 0)
+    dist = flag(lambda o: o["mult"] == "distinct")
+    ex, small, mild = S["exact"], S["small"], S["mild"]
+    allp = onp.ones(len(ex), bool)
+    sq = pd | (psd & ex)
+    pfa = g0 & (dist | ex)
+    out = {}
+    for clause, fields in CLAUSE_FIELDS.items():
+        fn, what = (clause.split("_") + [""])[:2]
+        for f in fields:
+            if fn == "eig" or clause == "detpIm1":
+                a = allp
+            elif clause == "inverse":
+                a = ns
+            elif clause == "polar":
+                a = pd
+            elif fn == "sqrt":
+                a = sq if what in ("identity", "equivariant") else pd
+            elif fn == "exp":
+                a = mild if what == "identity" else small
+            elif fn == "log":
+                a = pd
+            else:
+                a = {"pi": allp, "pn": ns, "pf": pd}[f.split("_")[0]]
+                if what == "frechet":
+                    a = a & pfa
+            out[(clause, f)] = a
+    return out
+
+
 def features(o):
     return dict(kind=o["kind"], rot=o["rot"], mult=o["mult"], mid_dev_eig_zero=bool(o["mid0"]), block=bool(o["block"]),
                 gap=o["g"], definiteness=o["def"], near_equal=(o["mult"] != "distinct"),
@@ -714,7 +752,7 @@ def main(tier, replay=None):
         "max |divided difference| * max |H|; directions: the six symmetric basis tensors and one dense symmetric tensor",
         "exp clauses only where max |eigenvalue| * scale <= 50 (no overflow); exp(A) exp(-A) = I and log(exp A) = A only "
         "where it is <= 4, allowance scaled by exp(spread of the spectrum); inverse, polar and A^m A^-m = I allowances "
-        "scaled by cond(A)^(1 or |m|) (cond <= 4 on the lattice)",
+        "scaled by cond(A)^(1 or |m|), cond(A) = max|eigenvalue| / min|eigenvalue| of the lattice tensor",
         "sqrt on singular positive semi-definite tensors is judged only for inputs that are EXACTLY representable "
         "(identity and equivariance; no value clause: sqrt is not Lipschitz at 0); log and fractional powers: positive definite",
         "pow_symm derivative judged only where its docstring claims accuracy: exactly representable input with exactly "
@@ -819,8 +857,9 @@ def main(tier, replay=None):
         if replay:
             events = [e for e in events if all(e[k] == case["event_key"][k] for k in ("exact", "small", "mild"))]
         nsamples += len(S["A"])
+        app = applicability(unit["pts"], S)
         for clause, fields in CLAUSE_FIELDS.items():
-            nn = sum(int((C[f] != 0).sum()) for f in fields)
+            nn = sum(int(((C[f] != 0) & app[(clause, f)]).sum()) for f in fields)
             rep.count_clause(clause, nn)
         k = "samples_" + unit["mode"]
         rep.coverage[k] = rep.coverage.get(k, 0) + len(S["A"])
